@@ -147,7 +147,7 @@ pub fn run(ctx: &Ctx) -> Report {
     let mut rep = Report::new(ID, "fault_enumeration", ctx);
     rep.rule = "Cases: valid caches written from grammar-generated mappings (0..~60 classes). Per cache, enumerated exhaustively: every strict prefix length 0..len-1 and every single-field edit of the 24-byte header (magic in {byte-swapped,0,+1,random}; version in {0,2,2^32-1,random}; each of the four counts in {0,-1,+1,*2,2^31,2^32-1}). Oracle: expected outcome computed from the documented layout (first section that does not fit decides InvalidClasses/InvalidMembers/UnexpectedStringBytes{expected,found}; magic/version rules); a prefix that is accepted must answer the whole universe like the full file. evaluations = parse calls. Non-trivial = distinct (file, fault) where the rejection depends on a section check (prefix >= 24 bytes, count edits).".into();
     rep.assumptions = vec!["buffers are 8-byte aligned (prefixes are sub-slices of an aligned buffer)".into()];
-    let n = ctx.cases(200, 6000);
+    let n = ctx.cases(10_000, 150_000);
     rep.run_stage("ast", || map_case(&cfg()), n, check_case);
     rep.stats.exhaustive.push("per generated cache: all strict prefixes and all listed single-field header edits".into());
     rep
